@@ -159,6 +159,32 @@ theorem hermitize_props {K : Type} [Field K] [StarRing K] (h2 : (2 : K) ≠ 0) (
   refine ⟨hermitize_hermitian A, hermitize_fix h2 A, ?_⟩
   exact hermitize_fix h2 _ (fun a b => hermitize_hermitian A a b)
 
+/-! ## T5 — `Data_K_R._rotate` / `Xbar` glue -/
+
+/-- T5.  `_rotate` (`U†XU` per k-point, applied to every Cartesian component separately) maps a Hermitian matrix to a
+    Hermitian matrix for ANY `U` (the eigenvector matrix of `eigh`, unitary or not, any gauge) and any size. -/
+theorem rotate_preserves_hermiticity {K : Type} [Field K] [StarRing K] (n : Nat) (U X : Nat → Nat → K)
+    (hX : ∀ b c, X c b = star (X b c)) (a d : Nat) :
+    rotate n star U X d a = star (rotate n star U X a d) :=
+  rotate_hermitian n U X hX a d
+
+/-- T5 (corollary: `Xbar(name, der)`).  For Hermitian real-space data on an inversion-symmetric R list, every Cartesian
+    component of every derivative order of the k-space matrix stays Hermitian after the rotation to the Hamiltonian
+    gauge — the statement `kspace_derivatives_hermitian` survives `_rotate`. -/
+theorem xbar_hermitian {K : Type} [Field K] [StarRing K] (I : K) (hI : star I = -I)
+    (L : List (List Rat)) (cs : List QVec3) (αs : List Nat)
+    (iRvec : List Vec3) (hsym : (iRvec.map vneg).Perm iRvec)
+    (χ : Vec3 → K) (hχ : ∀ R, star (χ R) = χ (vneg R))
+    (X : Vec3 → Nat → Nat → K) (hX : HermR X) (n : Nat) (U : Nat → Nat → K) (a d : Nat) :
+    let Y : Vec3 → Nat → Nat → K := fun R a b =>
+      derivN I (αs.map fun α => ((cRshift L cs R a b α : Rat) : K)) (X R a b)
+    let H : Nat → Nat → K := fun a b => explicitSum χ (iRvec.map fun R => (R, Y R a b))
+    rotate n star U H d a = star (rotate n star U H a d) := by
+  intro Y H
+  apply rotate_hermitian
+  intro b c
+  exact kspace_derivatives_hermitian I hI L cs αs iRvec hsym χ hχ X hX b c
+
 /-! ## non-vacuity -/
 
 /-- a box smaller than the R set: R = 0, 2, −2, 1 on the box (2,1,1) collide pairwise; contents are added -/
